@@ -207,6 +207,7 @@ pub fn run_case(id: &str, c: &DetCase, runs: usize, out: &mut String) {
     let od = outdir.to_string_lossy().to_string();
     let modes: Vec<(&str, Vec<String>, bool)> = vec![
         ("total-costs", vec![f.clone(), "--total-costs".into()], false),
+        ("full-values", vec![f.clone(), "--total-costs".into(), "--print-full-values".into()], false),
         ("csv-dir", vec![f.clone(), "--total-costs".into(), "-d".into(), od.clone()], true),
         ("summary", vec![f.clone(), "--summarize-before".into(), c.summary_date.clone()], false),
         (
